@@ -13,6 +13,20 @@ downstream cell is `c`. `NoCycle g`: no cell comes back to itself after `m ≥ 1
 All statements hold for every grid size, every code table, every flow-direction content, every field, every
 no-data value; value types: any type with `+` (the fold statements, valid verbatim for IEEE doubles) or any
 commutative monoid (the sum statements: exact arithmetic).
+
+Clause -> theorems -> what stays outside (audit of the deepening round)
+
+| clause of the property | theorems | outside the theorems |
+|---|---|---|
+| quantifier: "any flow-direction grid without cycles", default cell limit | `noCycle_iff_allTerminate`, `allTerminate_default`, `allTerminate_of_noCycle_cap`: the hypothesis `AllTerminate` of the value theorems IS acyclicity for every limit >= nrows*ncols-1 | the harness's own cycle search is compared with `allTerminateB`/`endsAt` (`spec` request) |
+| a draining cell holds the sum of the field over that cell and every cell draining through it | `accumulate_eq_sum`, `accumulate_acyclic_default`; order-exact for a bare `+` (IEEE doubles): `accumulate_eq_fold`, `onPath_iff_drains`; `mem_upClosure_iff` (the closure the driver computes = `drainsThrough`) | rounding of a sum taken in another order (correspondence budget) |
+| ... the number of such cells for the default unit field | `accumulateUnit_eq_card`, `gridAccumulate_none` | - |
+| ... equals its own contribution plus the accumulated values of its direct upstream neighbours | `accumulate_recurrence`, `directUp_neighbour`, `mem_directUpList_iff` | - |
+| cells that drain nowhere (sinks, off-grid exits, invalid codes) carry the no-data value | `accumulate_terminal`; which cells those are, exactly: `dn_neg_iff` (`dn_sink`, `dn_unknown_code`, `dn_of_code`, `dn_cases`) | - |
+| the input grids' cell values are not altered | memory model of the two float buffers: `cAccumulateS_unaliased`, `cAccumulateS_field_unchanged`, `gridAccumulate_inputs_unchanged` (the clone is a distinct buffer; with one array passed twice the field IS altered — `example`) | the flow-direction buffer is not in the store (the kernel has no store through that pointer): by construction; numpy `astype` of the caller's grids (dtype changes, values kept) and `deepcopy` are external; both observed on the real code by the oracle, call after call |
+| grids with cycles or a reduced limit terminate without error | `accumulate_total`, `accumulateUnit_total`, `cAccumulate_total` (any flow directions, any limit >= 1 or default) | - |
+| glue of the wrapper: default limit, unit default field, accumulation = copy of the field, shapes, result no-data value, limit < 1 | `gridAccumulate_some`, `gridAccumulate_none`, `gridAccumulate_shape`, `accumulate_rejects_limit`, `cAccumulate_eq_fold` (what the initial buffer contributes) | `nprint` (only `fprintf`), dtype conversion of the grids |
+| (finding) the pinned kernel was right only for uniform fields | `cAccumulatePinned_eq_of_uniform`, `example` | - |
 -/
 import HydroVerif.Lemmas.C11Sum
 
